@@ -42,30 +42,28 @@ Proof. induction l as [|x l IH]; simpl; [lia|]. destruct (stop x); simpl; lia. Q
 
 (** * parseHeader never panics *)
 Lemma find_end_spec fuel data e :
-  (1 <= e)%nat ->
   find_end fuel data e <> Panic /\
   (forall e', find_end fuel data e = Ok (Some e') -> (e <= e' < length data)%nat).
 Proof.
-  revert e; induction fuel as [|f IH]; intros e He; simpl.
+  revert e; induction fuel as [|f IH]; intros e; simpl.
   - split; [discriminate|]. intros e' H; discriminate.
   - destruct (Nat.ltb_spec e (length data)) as [Hlt|Hge].
     2:{ split; [discriminate|]. intros e' H; discriminate. }
     destruct (index_lt data e Hlt) as [c Hc]. rewrite Hc. simpl.
-    destruct (IH (S e) ltac:(lia)) as [IH1 IH2].
-    destruct (c =? 34).
-    + destruct e as [|e1]; [lia|].
-      destruct (index_lt data e1 ltac:(lia)) as [p Hp]. rewrite Hp. simpl.
-      destruct (negb (p =? 92)).
+    destruct (c =? 92).
+    + destruct (IH (S (S e))) as [IH1 IH2].
+      split; [exact IH1|]. intros e' H. specialize (IH2 e' H). lia.
+    + destruct (c =? 34).
       * split; [discriminate|]. intros e' H; inversion H; subst; lia.
-      * split; [exact IH1|]. intros e' H. specialize (IH2 e' H). lia.
-    + split; [exact IH1|]. intros e' H. specialize (IH2 e' H). lia.
+      * destruct (IH (S e)) as [IH1 IH2].
+        split; [exact IH1|]. intros e' H. specialize (IH2 e' H). lia.
 Qed.
 
 Lemma prescan_no_panic data : prescan data <> Panic.
 Proof.
   unfold prescan. destruct (index_byte 34 data) as [start|] eqn:E; [|discriminate].
   apply index_byte_lt in E.
-  destruct (find_end_spec (length data) data (S start) ltac:(lia)) as [H1 H2].
+  destruct (find_end_spec (length data) data (S start)) as [H1 H2].
   apply rbind_no_panic; [exact H1|].
   intros [e|] He; [|discriminate].
   specialize (H2 e He). rewrite slice_le by lia. simpl. discriminate.
